@@ -10,6 +10,25 @@ BUF_GETTERS = {"inner", "buffer", "values", "validity"}
 OFF_GETTERS = {"offset", "bit_offset"}
 
 
+def obj_root(b, l, depth=0):
+    """the local an object reference ultimately denotes (through copies, reborrows and derefs); call results are
+    identified by their own destination local, so two different calls to the same getter are different objects"""
+    ds = b.defs().get(l, [])
+    if len(ds) != 1 or depth > 10 or ds[0][0] != "s" or ds[0][4][1]:
+        return l
+    rv = ds[0][3]
+    p = rv[1][1] if rv[0] == "use" and rv[1][0] in ("c", "m") else (rv[2] if rv[0] == "ref" else None)
+    if p is not None and all(e == "*" for e in p[1]):
+        return obj_root(b, p[0], depth + 1)
+    if p is not None:
+        # field projection: identify by (root, field path)
+        from .dtm import _proj_fields
+        fs = _proj_fields(p[1])
+        if fs is not None:
+            return (obj_root(b, p[0], depth + 1), fs)
+    return l
+
+
 def getter_of(b, l, depth=0):
     ds = b.defs().get(l, [])
     if len(ds) != 1 or depth > 6:
@@ -21,7 +40,7 @@ def getter_of(b, l, depth=0):
             rl = op_local(t["args"][0])
             if rl is None:
                 return None
-            return (flow.norm(callee(t) or "").split("::")[-1], dtm._root_of(b, rl))
+            return (flow.norm(callee(t) or "").split("::")[-1], obj_root(b, rl))
         return None
     if d[0] == "s" and d[3][0] in ("use", "ref"):
         p = d[3][1][1] if d[3][0] == "use" and d[3][1][0] in ("c", "m") else (d[3][2] if d[3][0] == "ref" else None)
